@@ -71,22 +71,23 @@ theorem stream_walk {s : Seg} {l : List Nat} (h : Linked s l) (hc : Clean s l) :
 
 /-- **C03 (rule actions).** Any rule action followed by its garbage collection maps well-formed streams to well-formed
 streams: if `l` is the stream before (and the slot map's current cell holds one of its slots, as the matcher guarantees),
-there is a list `l'` that is the stream afterwards. -/
+there is a list `l'` that is the stream afterwards. (`hh`: the high-water mark, when set, is a slot of the stream; the
+pipeline theorem `shape_stream_wf` below discharges both side conditions for every rule the engine runs.) -/
 theorem action_stream_wf {is : List Instr} {dl : Bool} {mr : Nat} {data : List Nat} {ctx : Ctx} {l : List Nat}
-    (hl : Linked ctx.seg l) (hc : Clean ctx.seg l)
+    (hl : Linked ctx.seg l) (hc : Clean ctx.seg l) (hh : ∀ x, ctx.highwater = some x → x ∈ l)
     (hmap : ∀ x, ctx.smap.getD ((ctx.context : Int) + 1).toNat none = some x → x ∈ l)
     {r : Int} {st : Status} {so : Option Nat} {c : Ctx}
     (e : doAction is dl mr data ctx = .ok (r, st, so, c)) :
-    ∃ l', Linked c.seg l' ∧ Clean c.seg l' := doAction_stream hl hc hmap e
+    ∃ l', Linked c.seg l' ∧ Clean c.seg l' := doAction_stream hl hc hh hmap e
 
 /-- the two together: what a client observes after any rule action -/
 theorem action_then_walk {is : List Instr} {dl : Bool} {mr : Nat} {data : List Nat} {ctx : Ctx} {l : List Nat}
-    (hl : Linked ctx.seg l) (hc : Clean ctx.seg l)
+    (hl : Linked ctx.seg l) (hc : Clean ctx.seg l) (hh : ∀ x, ctx.highwater = some x → x ∈ l)
     (hmap : ∀ x, ctx.smap.getD ((ctx.context : Int) + 1).toNat none = some x → x ∈ l)
     {r : Int} {st : Status} {so : Option Nat} {c : Ctx}
     (e : doAction is dl mr data ctx = .ok (r, st, so, c)) :
     ∃ l', walk c.seg (l'.length + 1) c.seg.first = l' ∧ l'.Nodup ∧ (l'.length : Int) = c.seg.numGlyphs ∧ c.seg.last = l'.getLast? := by
-  obtain ⟨l', h1, h2⟩ := action_stream_wf hl hc hmap e
+  obtain ⟨l', h1, h2⟩ := action_stream_wf hl hc hh hmap e
   have := stream_walk h1 h2
   exact ⟨l', this.1, this.2.1, this.2.2.1, this.2.2.2.1⟩
 
